@@ -64,7 +64,7 @@ def env():
 _DENS = {}
 
 
-def front_decision(n1d, coord, nthread, npart, orient=0):
+def front_decision(n1d, coord, nthread, npart, orient=0, wrap=False):
     """Run the real tsc_parallel front end; returns ('accept', effective npartition) | ('reject', msg) | ('error', msg)"""
     import warnings
     T = env()
@@ -93,7 +93,7 @@ def front_decision(n1d, coord, nthread, npart, orient=0):
     try:
         with warnings.catch_warnings():
             warnings.simplefilter('ignore')
-            T['front'](pos, dens, BOX, nthread=nthread, npartition=npart, coord=coord, wrap=False)
+            T['front'](pos, dens, BOX, nthread=nthread, npartition=npart, coord=coord, wrap=wrap)
     except ValueError as e:
         return 'reject', str(e)
     except Exception as e:
@@ -122,12 +122,17 @@ def probes(n1d, npart, coord, dtype, offset_cells):
     return pos
 
 
-def por_run(n1d, npart, coord, dtype, offset_cells):
+def por_run(n1d, npart, coord, dtype, offset_cells, empty=()):
     """E-POR on the real twins. Returns (conflicts, pairs_checked, maxdiff vs serial, nparticles)"""
     T = env()
     tsc, rt = T['tsc'], T['rt']
     pos = probes(n1d, npart, coord, dtype, offset_cells)
     w = (1 + (np.arange(len(pos)) % 7) / 8).astype(dtype)
+    if empty:
+        # clustered input: no particle at all in the listed stripes (a stripe that exists but is empty must stay a stripe)
+        key = np.minimum((pos[:, coord].astype(np.float64) * npart / BOX).astype(np.int64), npart - 1)
+        keep = ~np.isin(key, list(empty))
+        pos, w = pos[keep], w[keep]
     ppart, starts, wpart = tsc.partition_parallel(pos, npart, BOX, weights=w, coord=coord, nthread=2)
     shape = [3, 3, 3]
     shape[coord] = n1d
@@ -160,6 +165,13 @@ def run_config(case):
         for npart in [None] + list(range(1, n1d + 1)):
             verdict, info = front_decision(n1d, coord, nthread, npart)
             ncalls += 1
+            v3, i3 = front_decision(n1d, coord, nthread, npart, wrap=True)
+            ncalls += 1
+            # the accept/reject decision may legitimately depend on the wrap option; both variants are examined
+            if v3 == 'error':
+                probs.append(dict(sig='front:unexpected-error', msg=f'n1d={n1d} nthread={nthread} npartition={npart} wrap=True: {i3}'))
+            elif v3 == 'accept' and max(nthread, i3[1] or 1) > 1 and i3[0] and i3[0] > 1:
+                accepted.setdefault(i3[0], []).append((nthread, npart))
             if nthread in (2, 16):
                 v2, i2 = front_decision(n1d, coord, nthread, npart, orient=1)
                 ncalls += 1
@@ -194,6 +206,15 @@ def run_config(case):
                                       msg=f'n1d={n1d} coord={coord} npartition={npart} (accepted e.g. for nthread={who[0]}, npartition arg={who[1]}) '
                                           f'dtype={dtype.__name__} offset={off} cell: stripes {c[4]} of phase {c[0]} both access {c[1]} element {c[3]} ({c[2]}); '
                                           f'{len(conflicts)} conflicting elements reported'))
+                if npart >= 4 and off == 0.0 and dtype is np.float32:
+                    for empty in ((1,), (npart - 2,), (1, 2), tuple(range(1, npart, 2))):
+                        c2, p2, rel2, _, _, _ = por_run(n1d, npart, coord, dtype, off, empty=empty)
+                        pairs_total += p2
+                        if c2:
+                            c = c2[0]
+                            probs.append(dict(sig='por:stripes-share-cells:empty-stripes', msg=f'n1d={n1d} coord={coord} npartition={npart} with stripes {empty} empty: stripes {c[4]} of phase {c[0]} both access {c[1]} element {c[3]} ({c[2]})'))
+                        if not rel2 <= tol:
+                            probs.append(dict(sig='por:differs-from-serial:empty-stripes', msg=f'n1d={n1d} coord={coord} npartition={npart} empty={empty}: max rel diff {rel2}'))
                 if not rel <= tol:
                     probs.append(dict(sig='por:differs-from-serial', msg=f'n1d={n1d} coord={coord} npartition={npart} dtype={dtype.__name__} offset={off}: max rel diff {rel}'))
         nt.append((n1d, npart, coord))
